@@ -495,6 +495,10 @@ func (r *replayer) runBatch(tp targetPkg, vecs []replayVector, timeout time.Dura
 	cmd := exec.Command(r.bin[tp.name], "-test.run", "^TestVerifReplay$", "-test.timeout", timeout.String())
 	cmd.Dir = tp.dir
 	cmd.Env = append(goEnv(), "VERIF_REPLAY_IN="+in, "VERIF_REPLAY_OUT="+out)
+	if timeout > 10*time.Minute {
+		// a patient re-run of a single vector: the per-vector watchdog is raised with the process limit
+		cmd.Env = append(cmd.Env, "VERIF_REPLAY_VECTIMEOUT="+(timeout-30*time.Second).String())
+	}
 	cout, err := cmd.CombinedOutput()
 	ob, rerr := os.ReadFile(out)
 	os.Remove(in)
@@ -975,6 +979,13 @@ func runCheck(mode string, args []string) {
 					continue
 				}
 				if p.ce == nil {
+					if strings.Contains(o.Crash, "(hang)") && p.res.Outcome == "OK" {
+						// the engine predicts a normal end and the native run hit the 25 s watchdog: before calling it
+						// a mismatch, run the vector alone with a patient limit (a loaded machine must not break a check)
+						if o2, _, err2 := rp.runBatch(targets[tn], []replayVector{p.vec}, 12*time.Minute); err2 == nil && len(o2) == 1 {
+							o = &o2[0]
+						}
+					}
 					ok, note := compareWitness(p.res, o)
 					if ok {
 						matched++
